@@ -189,3 +189,37 @@ func VerifMultiWriteToErrors() {
 	zzverif.Assert(s1.closes == 1 && s2.closes == 1 && s3.closes == 1, "second_close_is_a_no_op")
 	zzverif.Cover("multi_writeto_errors_done")
 }
+
+// LimitReadCloser over a source that fails, the failure arriving alone or together with data - also together with the
+// very byte that crosses the limit: the consumer never receives more than N bytes, what it receives is a prefix of the
+// source, and the stream does not end cleanly (the source's error or ErrStreamTooLarge).
+//
+//verif:harness prop=C16 name=limit_with_failing_source unwind=14
+func VerifLimitFailingSource() {
+	L := 1 + zzverif.Choose("L", 5)
+	d := zzverif.Bytes("data", L)
+	N := int64(zzverif.Choose("N", 5))
+	at := 1 + zzverif.Choose("fail_at", L) // 1..L: at least one byte in front of the failure
+	s := &vSrc{data: d, maxZero: 0, failAt: at, failErr: vErrSrc, errWithData: zzverif.Bool("error_together_with_data")}
+	r := LimitReadCloser(s, N)
+	buf := make([]byte, 1+zzverif.Choose("bufsize", 4))
+	var out []byte
+	var err error
+	for i := 0; i < 10; i++ {
+		var n int
+		n, err = r.Read(buf)
+		zzverif.Assert(n >= 0 && n <= len(buf), "read_count_in_range")
+		out = append(out, buf[:n]...)
+		if err != nil {
+			break
+		}
+	}
+	zzverif.Assume(err != nil)
+	zzverif.Assert(int64(len(out)) <= N, "never_more_than_n_bytes")
+	zzverif.Assert(len(out) <= at && zzverif.EqBytes(out, d[:len(out)]), "prefix_of_the_source")
+	zzverif.Assert(err != io.EOF, "failing_or_oversize_source_never_looks_complete")
+	zzverif.Assert(errors.Is(err, vErrSrc) || err == ErrStreamTooLarge, "source_error_or_too_large")
+	r.Close()
+	zzverif.Assert(s.closes == 1, "closed_exactly_once_after_close")
+	zzverif.Cover("limit_with_failing_source_done")
+}
